@@ -516,4 +516,80 @@ def runSeq (ps : List Policy) : List SNode → List REvent → List (Option (Rep
 def totalDeletes (tr : List (Option (RepairIn × Out × RBranch))) : Nat :=
   (tr.map (fun r => match r with | some (_, o, _) => o.deletes | none => 0)).sum
 
+/-! ## Node repair: which NodeClaim is the Node's
+
+`Controller.Reconcile` starts from a *Node* and acts on a *NodeClaim*: `nodeutils.NodeClaimForNode` →
+`nodeutils.GetNodeClaims` resolves the Node to the NodeClaims whose `status.providerID` equals the Node's
+`spec.providerID`.  The cluster around the reconciled Node holds many NodeClaims: the Node's own, those of the
+other Nodes, and NodeClaims that are **still launching** — they have no provider id yet (`""`), no Node and no
+condition of any kind.  A Node may lack a provider id too (the cloud-controller-manager has not set it yet, or
+the Node was registered by hand).  `GetNodeClaims` answers "none" for such a Node *without asking the API
+server* — the `status.providerID` field index lists every launching NodeClaim under `""`. -/
+
+/-- a NodeClaim of the cluster, as far as node repair can see it -/
+structure TClaim where
+  name     : String
+  pid      : String            -- `status.providerID`; "" = not launched yet
+  pool     : Option String     -- nodepool label
+  deleting : Bool := false
+deriving Repr, DecidableEq
+
+structure RepairTIn where
+  policies       : List Policy
+  node           : RNode
+  nodePid        : String        -- `spec.providerID` of the reconciled Node; "" = not set
+  claims         : List TClaim   -- ALL NodeClaims of the cluster
+  others         : List RNode
+  now            : Int
+  claimListFault : Bool          -- the NodeClaim list (by provider id) fails, if it is issued
+  nodeListFault  : Fault
+  patchFault     : Fault
+  deleteFault    : Fault
+deriving Repr
+
+/-- `nodeutils.GetNodeClaims`: none for a Node without provider id (`skipEmpty`: the early return in front of
+    the LIST — the regenerated control-flow fact `nodeClaimLookupSkipsEmptyProviderID`), otherwise the NodeClaims
+    the `status.providerID` index lists under the Node's provider id; without the early return that is, for a
+    Node without provider id, every NodeClaim that is still launching -/
+def nodeClaimsForWith (skipEmpty : Bool) (i : RepairTIn) : List TClaim :=
+  if skipEmpty && i.nodePid == "" then [] else i.claims.filter (fun c => c.pid == i.nodePid)
+
+def nodeClaimsFor (i : RepairTIn) : List TClaim :=
+  nodeClaimsForWith Karp.Gen.Reapers.nodeClaimLookupSkipsEmptyProviderID i
+
+/-- the reconcile as `repairB` sees it once the Node has been resolved to NodeClaim `c` -/
+def RepairTIn.view (i : RepairTIn) (c : TClaim) : RepairIn :=
+  { policies := i.policies, node := i.node, claims := 1, claimPool := c.pool, claimDeleting := c.deleting,
+    annot := .none, others := i.others, now := i.now, claimListFault := false,
+    nodeListFault := i.nodeListFault, patchFault := i.patchFault, deleteFault := i.deleteFault }
+
+/-- does `repairB` reach `annotateTerminationGracePeriod`'s Patch? -/
+def repairPatches (i : RepairIn) : Bool :=
+  !i.claimListFault && i.claims == 1 &&
+  (match findUnhealthy i.policies i.node.conds with
+   | none => false
+   | some (c, tol) => !(i.now < c.since + tol) && i.nodeListFault == .none && nodesHealthy i && patchNeeded i)
+
+/-- what a reconcile did, by NodeClaim name -/
+structure TOut where
+  deleted : List String := []    -- NodeClaims Delete was called for
+  patched : List String := []    -- NodeClaims the termination timestamp was stamped on (Patch issued)
+  out     : Out := {}
+  branch  : RBranch := .idle
+deriving Repr, DecidableEq
+
+def repairTWith (skipEmpty : Bool) (i : RepairTIn) : TOut :=
+  -- the LIST is issued (and can fail) unless the lookup returned before it
+  if !(skipEmpty && i.nodePid == "") && i.claimListFault then { out := { err := true } }
+  else match nodeClaimsForWith skipEmpty i with
+    | [c] =>
+      let r := repairB (i.view c)
+      { deleted := if 0 < r.1.deletes then [c.name] else [],
+        patched := if repairPatches (i.view c) then [c.name] else [],
+        out := r.1, branch := r.2 }
+    | _ => {}                       -- NotFound / Duplicate are ignored
+
+/-- the reconcile as the code is -/
+def repairT (i : RepairTIn) : TOut := repairTWith Karp.Gen.Reapers.nodeClaimLookupSkipsEmptyProviderID i
+
 end Karp.Reapers
